@@ -10,5 +10,5 @@ func (S) M() *int { return nil }
 func F() int {
 	var a A
 	var i I = a
-	return *i.M() //KNOWN:F41-b7
+	return *i.M() //REPORT
 }
